@@ -2,6 +2,9 @@ import GdcVerif.Model.JpegLossless
 import GdcVerif.Lemmas.JpegLossless
 import GdcVerif.Lemmas.JllBits
 import GdcVerif.Lemmas.JllCanon
+import GdcVerif.Lemmas.JllScan
+import GdcVerif.Lemmas.JllOptimal
+import GdcVerif.Lemmas.JllCompose
 /-!
   C02 — JPEG Lossless (Process 14, predictors 1–7) and SV1: exact reconstruction.
 
@@ -10,8 +13,9 @@ import GdcVerif.Lemmas.JllCanon
   category coder, the bit writer/reader and the canonical Huffman tables are the code-shaped
   hand model `Model/JpegLossless.lean`, tied to /repo by this check's correspondence run.
 
-  FINDING (class `jll-pred456-wrap`): layer L2 is FALSE for the unchanged decoders when the
-  prediction leaves [0, 2^P) — predictors 4–6 at P = 15, 16 — see `diff_wrap_inverse_counterexample`.
+  History: layer L2 was false for the decoder before fix 479126d (class `jll-pred456-wrap`, single
+  wrap; predictors 4–6 at P = 15, 16); it is now proved in full, with the old witness kept as a
+  regression `example`.
 -/
 namespace JLL
 open Gen.JpegLossless
@@ -34,67 +38,48 @@ example : encPredicted 8 4 1 1 ⟨10, 20, 5⟩ = 25 ∧ sv1Predicted 8 1 0 ⟨10
 
 /-! ## L2 — difference modulo 2^16 and its inverse -/
 
-/-- The full statement of L2 for the decoder as it is. -/
-def diff_wrap_inverse_FullStatement : Prop :=
-  ∀ (P predictor row col : Int) (nb : Nb) (sample : Int),
-    2 ≤ P ∧ P ≤ 16 → 1 ≤ predictor ∧ predictor ≤ 7 → 0 ≤ row → 0 ≤ col → NbIn P nb →
-    0 ≤ sample ∧ sample < Go.shl 1 P →
+/-- L2, jpeg/lossless (decoder shape since fix 479126d, `(predicted + diff) & (2^P - 1)`):
+    for every precision 2..16, every predictor 1..7, every neighbourhood and position, the
+    decoder's reconstruction of the encoder's int16-wrapped difference is the sample. -/
+theorem diff_wrap_inverse (P predictor row col : Int) (nb : Nb) (sample : Int)
+    (hP : 2 ≤ P ∧ P ≤ 16) (_hp : 1 ≤ predictor ∧ predictor ≤ 7) (_hr : 0 ≤ row) (_hc : 0 ≤ col)
+    (_hnb : NbIn P nb) (hs : 0 ≤ sample ∧ sample < Go.shl 1 P) :
     decSample P (decPredicted P predictor row col nb)
-      (encDiff sample (encPredicted P predictor row col nb)) = sample
-
-/-- The unchanged decoder violates L2: P = 15, predictor 4, Ra = Rb = 32767, Rc = 0, sample 0
-    (the image [0, 32767; 32767, 0] at its last position) reconstructs 32768. -/
-theorem diff_wrap_inverse_counterexample :
-    decSample 15 (decPredicted 15 4 1 1 ⟨32767, 32767, 0⟩)
-      (encDiff 0 (encPredicted 15 4 1 1 ⟨32767, 32767, 0⟩)) = 32768 := by decide
-
-/-- … hence the full statement is false for the code as it is. -/
-theorem diff_wrap_inverse_false : ¬ diff_wrap_inverse_FullStatement := by
-  intro h
-  have := h 15 4 1 1 ⟨32767, 32767, 0⟩ 0 (by decide) (by decide) (by decide) (by decide) (by decide) (by decide)
-  rw [diff_wrap_inverse_counterexample] at this
-  exact absurd this (by decide)
-
-/-- witnesses for the other two affected predictors and for P = 16 -/
-theorem diff_wrap_inverse_counterexamples_56_16 :
-    decSample 15 (decPredicted 15 5 1 1 ⟨32767, 32767, 0⟩) (encDiff 0 (encPredicted 15 5 1 1 ⟨32767, 32767, 0⟩)) ≠ 0 ∧
-    decSample 15 (decPredicted 15 6 1 1 ⟨32767, 32767, 0⟩) (encDiff 0 (encPredicted 15 6 1 1 ⟨32767, 32767, 0⟩)) ≠ 0 ∧
-    decSample 16 (decPredicted 16 4 1 1 ⟨65535, 65535, 0⟩) (encDiff 0 (encPredicted 16 4 1 1 ⟨65535, 65535, 0⟩)) ≠ 0 := by
-  decide
-
-/-- L2, what holds for the unchanged code: predictors 1, 2, 3, 7 at every precision, every
-    predictor at P ≤ 14, and predictors 4–6 at P = 15, 16 whenever the prediction stays inside
-    [0, 2^P).  Missing for the full statement: predictors 4–6 at P ∈ {15, 16} with a prediction
-    outside [0, 2^P) (there the statement is false, see above). -/
-theorem diff_wrap_inverse_partial (P predictor row col : Int) (nb : Nb) (sample : Int)
-    (hP : 2 ≤ P ∧ P ≤ 16) (hp : 1 ≤ predictor ∧ predictor ≤ 7)
-    (hnb : NbIn P nb) (hs : 0 ≤ sample ∧ sample < Go.shl 1 P)
-    (hok : predictor = 1 ∨ predictor = 2 ∨ predictor = 3 ∨ predictor = 7 ∨ P ≤ 14 ∨
-       (0 ≤ encPredicted P predictor row col nb ∧ encPredicted P predictor row col nb < Go.shl 1 P)) :
-    decSample P (decPredicted P predictor row col nb)
-      (encDiff sample (encPredicted P predictor row col nb)) = sample :=
-  diff_wrap_inverse_partial' P predictor row col nb sample hP hp hnb hs hok
+      (encDiff sample (encPredicted P predictor row col nb)) = sample := by
+  rw [decPredicted_eq_enc]; exact diff_wrap_inverse' P _ sample hP hs
 
 example : NbIn 16 ⟨65535, 0, 65535⟩ ∧ (0:Int) ≤ 65535 ∧ (65535:Int) < Go.shl 1 16 := by decide
 
-/-- L2 for the PROPOSED repair `sample := (predicted + diff) & (modulus - 1)`: the full
-    statement, for every predicted value whatsoever (so for every predictor and neighbourhood). -/
-theorem diff_wrap_inverse_patched (P predictor row col : Int) (nb : Nb) (sample : Int)
-    (hP : 2 ≤ P ∧ P ≤ 16) (hs : 0 ≤ sample ∧ sample < Go.shl 1 P) :
-    decSamplePatched P (decPredicted P predictor row col nb)
-      (encDiff sample (encPredicted P predictor row col nb)) = sample := by
-  rw [decPredicted_eq_enc]; exact diff_wrap_inverse_patched' P _ sample hP hs
+/-- … in fact for every predicted value whatsoever (in range or not) -/
+theorem diff_wrap_inverse_any_prediction (P predicted sample : Int) (hP : 2 ≤ P ∧ P ≤ 16)
+    (hs : 0 ≤ sample ∧ sample < Go.shl 1 P) :
+    decSample P predicted (encDiff sample predicted) = sample :=
+  diff_wrap_inverse' P predicted sample hP hs
 
-example : decSamplePatched 15 (decPredicted 15 4 1 1 ⟨32767, 32767, 0⟩)
-    (encDiff 0 (encPredicted 15 4 1 1 ⟨32767, 32767, 0⟩)) = 0 := by decide
+/-- regression: the witnesses of the former defect `jll-pred456-wrap` (single wrap; P = 15/16,
+    predictors 4, 5, 6, Ra = Rb = 2^P−1, Rc = 0, sample 0 — the image [0, 32767; 32767, 0] at its
+    last position decoded 32768) are reconstructed correctly by the repaired shape -/
+example :
+    decSample 15 (decPredicted 15 4 1 1 ⟨32767, 32767, 0⟩) (encDiff 0 (encPredicted 15 4 1 1 ⟨32767, 32767, 0⟩)) = 0 ∧
+    decSample 15 (decPredicted 15 5 1 1 ⟨32767, 32767, 0⟩) (encDiff 0 (encPredicted 15 5 1 1 ⟨32767, 32767, 0⟩)) = 0 ∧
+    decSample 15 (decPredicted 15 6 1 1 ⟨32767, 32767, 0⟩) (encDiff 0 (encPredicted 15 6 1 1 ⟨32767, 32767, 0⟩)) = 0 ∧
+    decSample 16 (decPredicted 16 4 1 1 ⟨65535, 65535, 0⟩) (encDiff 0 (encPredicted 16 4 1 1 ⟨65535, 65535, 0⟩)) = 0 := by
+  decide
 
-/-- SV1 (selection value 1 on both sides) needs no repair: L2 holds in full for its trees -/
+/-- the single-wrap shape that lossless14sv1 still uses would NOT be enough for predictors 4–6
+    (this is the old defect, kept as a guard against re-introducing that shape in jpeg/lossless) -/
+theorem single_wrap_insufficient_for_pred4 :
+    sv1DecSample 15 (encPredicted 15 4 1 1 ⟨32767, 32767, 0⟩)
+      (encDiff 0 (encPredicted 15 4 1 1 ⟨32767, 32767, 0⟩)) = 32768 := by decide
+
+/-- L2, lossless14sv1 (single-wrap block, selection value 1 on both sides): full statement —
+    the SV1 prediction is always a sample or 2^(P−1), so one wrap suffices -/
 theorem sv1_diff_wrap_inverse (P row col : Int) (nb : Nb) (sample : Int)
     (hP : 2 ≤ P ∧ P ≤ 16) (hr : 0 ≤ row) (hc : 0 ≤ col)
     (hnb : NbIn P nb) (hs : 0 ≤ sample ∧ sample < Go.shl 1 P) :
-    decSample P (sv1Predicted P row col nb) (encDiff sample (sv1Predicted P row col nb)) = sample := by
+    sv1DecSample P (sv1Predicted P row col nb) (encDiff sample (sv1Predicted P row col nb)) = sample := by
   rw [sv1Predicted_eq_enc P row col nb hr hc]
-  exact diff_wrap_inverse_partial' P 1 row col nb sample hP (by decide) hnb hs (Or.inl rfl)
+  exact wrap_once_inverse' P 1 row col nb sample hP (by decide) hnb hs (Or.inl rfl)
 
 example : NbIn 12 ⟨4095, 0, 7⟩ ∧ (0:Int) ≤ 4095 ∧ (4095:Int) < Go.shl 1 12 := by decide
 
@@ -171,15 +156,16 @@ example : (∀ w ∈ [((0xFF : Nat), (8 : Nat)), (5, 3)], w.2 ≤ 16) ∧ StuffO
 
 /-! ## L5 — canonical Huffman tables (`HuffmanTable.Build`, `BuildHuffmanCodes`, `Decode`) -/
 
-/-- `Build` cannot hit its `lookupTable[code+j]` / `Values[p]` index panic on a valid table
-    (for arbitrary BITS it can: see `build_can_panic`) -/
+/-- `Build` succeeds on every valid table (its over-subscription guard — before fix 1cb8f42 the
+    `lookupTable[code+j]` / `Values[p]` index panic — cannot fire) -/
 theorem table_build_ok (bits : List Nat) (values : Array Nat) (hv : ValidTable bits values = true) :
     ∃ t, Table.build bits values = .ok t ∧ t.values = values ∧ t.codes = buildCodes bits 0 0 :=
   build_ok bits values hv
 
-/-- untrusted BITS = [3,0,…] drive the lookup index to 256: the model's panic outcome (C08) -/
-theorem build_can_panic :
-    Table.build [3, 0, 0, 0, 0, 0, 0, 0, 0, 0, 0, 0, 0, 0, 0, 0] #[0, 1, 2] = .panic := by decide
+/-- untrusted BITS = [3,0,…] are rejected with an error (regression: this input used to drive the
+    lookup index to 256 and panic) -/
+theorem build_rejects_oversubscribed :
+    Table.build [3, 0, 0, 0, 0, 0, 0, 0, 0, 0, 0, 0, 0, 0, 0, 0] #[0, 1, 2] = .err := by decide
 
 /-- every symbol of a valid table has a code of 1..16 bits that fits its length -/
 theorem canonical_codes_wf (bits : List Nat) (values : Array Nat) (hv : ValidTable bits values = true)
@@ -202,5 +188,89 @@ theorem canonical_codes_absent (bits : List Nat) (values : Array Nat) (sym : Nat
 
 example : ValidTable [0, 1, 5, 1, 1, 1, 1, 1, 1, 0, 0, 0, 0, 0, 0, 0] #[0, 1, 2, 3, 4, 5, 6, 7, 8, 9, 10, 11] = true := by
   decide
+
+/-! ## L7 — whole-scan round trip (composition of L1–L5 over the scan loops) -/
+
+/-- The entropy-coded segment: any sequence of (category, amplitude) symbols written with a valid
+    table's codes and `WriteBits`/`Flush` is read back symbol for symbol by `Decode` + `ReadBits`,
+    and the bytes satisfy the stuffing invariant. -/
+theorem entropy_layer_roundtrip (bits : List Nat) (values : Array Nat) (t : Table)
+    (hv : ValidTable bits values = true) (ht : Table.build bits values = .ok t)
+    (syms : List (Nat × Nat)) (hok : ∀ x ∈ syms, SymOk x ∧ x.1 ∈ values.toList) :
+    (∃ d', readSyms t syms.length
+        { data := writeAll {} (symWrites (buildHuffmanCodes bits values) syms) } = .ok (syms, d')) ∧
+    StuffOk (writeAll {} (symWrites (buildHuffmanCodes bits values) syms)) = true :=
+  entropy_roundtrip bits values t hv ht syms hok
+
+/-- L7: `decodeScan (encodeScan planes) = planes` for jpeg/lossless (sv1 = false, any predictor)
+    and lossless14sv1 (sv1 = true): every geometry w × h × nc (no upper bound), every precision
+    2..16, every P-bit content, every valid Huffman table that has a code for each category the scan
+    emits (`emittedCats`, executable) — which the per-image table has by `diffCategory_eq`, GIVEN
+    that `BuildOptimalHuffmanTable` returns a valid table containing every counted category (L6).
+    The scan bytes satisfy the stuffing invariant. -/
+theorem lossless_scan_roundtrip_thm (sv1 : Bool) (P predictor w h nc : Nat) (bits : List Nat)
+    (values : Array Nat) (t : Table) (s : Array (Array Int))
+    (hP : 2 ≤ P ∧ P ≤ 16)
+    (hv : ValidTable bits values = true) (ht : Table.build bits values = .ok t)
+    (hcat : ∀ k ∈ emittedCats sv1 P predictor w h nc s, k ∈ values.toList)
+    (hsz : s.size = nc ∧ ∀ c (hc : c < s.size), s[c].size = w * h)
+    (hrng : ∀ c (hc : c < s.size) i (hi : i < s[c].size), 0 ≤ s[c][i] ∧ s[c][i] < Go.shl 1 P) :
+    ∃ scan, encodeScan sv1 P predictor w h nc (buildHuffmanCodes bits values) s = .ok scan ∧
+      StuffOk scan = true ∧ decodeScan sv1 P predictor w h nc t scan = .ok s :=
+  lossless_scan_roundtrip_emitted sv1 P predictor w h nc bits values t s hP hv ht hcat hsz hrng
+
+/-- non-vacuity: a 2×2 one-component 8-bit image, predictor 4, the K.3 luminance DC table -/
+example :
+    let bits := [0, 1, 5, 1, 1, 1, 1, 1, 1, 0, 0, 0, 0, 0, 0, 0]
+    let values : Array Nat := #[0, 1, 2, 3, 4, 5, 6, 7, 8, 9, 10, 11]
+    let s : Array (Array Int) := #[#[10, 200, 30, 40]]
+    ValidTable bits values = true ∧ (∃ t, Table.build bits values = .ok t) ∧
+    (∀ k ∈ emittedCats false 8 4 2 2 1 s, k ∈ values.toList) := by
+  refine ⟨by decide, table_build_ok _ _ (by decide) |>.imp (fun _ h => h.1), by decide⟩
+
+/-! ## L6 — `BuildOptimalHuffmanTable` (code-shaped model `JLL.Opt.buildOptimal`) -/
+
+/-- safety: with at most 32 non-zero frequencies among the 256 (the lossless alphabet has 17) neither
+    the `bits[size]` index panic (code length > 32) nor any other panic nor non-termination of the
+    `others` chain walks is reachable -/
+theorem optimal_table_no_panic (f : List Nat) (hlen : f.length = 256)
+    (hc : f.countP (fun x => x != 0) ≤ 32) : ∃ r, Opt.buildOptimal f = .ok r :=
+  Opt.buildOptimal_ok_of_count f hlen hc
+
+/-- L6: for every frequency vector over the 17 difference categories the result is a `ValidTable`
+    (16 counts, counts sum to the number of values, values distinct bytes, Kraft) with STRICT
+    Kraft inequality (the all-ones code stays reserved), code lengths ≤ 16, and its symbols are
+    exactly the categories with non-zero frequency -/
+theorem optimal_table_valid (f : List Nat) (hf : Opt.LosslessFreq f) :
+    ∃ bits values, Opt.buildOptimal f = .ok (bits, values) ∧
+      ValidTable (bits.map Int.toNat) values.toArray = true ∧
+      KraftStrict (bits.map Int.toNat) = true ∧
+      (∀ i, i ∈ values ↔ i < 256 ∧ f[i]?.getD 0 ≠ 0) :=
+  optimal_table_valid' f hf
+
+example : Opt.LosslessFreq (catFreq [0, 3, 3, 16, 7]) := catFreq_lossless _ (by decide)
+
+/-! ## L6 + L7 — the scan round trip with the per-image optimal table, no table hypothesis left -/
+
+/-- `lossless_roundtrip` / `sv1_roundtrip` at scan level: for every geometry, precision 2..16,
+    predictor (sv1 = false) or SV1 (sv1 = true) and P-bit content, the table built by
+    `BuildOptimalHuffmanTable` from the category counts of the scan (`catFreq (emittedCats …)`, what
+    the frequency pass accumulates — `diffCategory_eq`, `neighbour_rules_agree`) passes `Build`,
+    `encodeScan` succeeds, its bytes satisfy the stuffing invariant, and `decodeScan` returns the
+    source planes. -/
+theorem lossless_scan_roundtrip_optimal (sv1 : Bool) (P predictor w h nc : Nat) (s : Array (Array Int))
+    (hP : 2 ≤ P ∧ P ≤ 16)
+    (hsz : s.size = nc ∧ ∀ c (hc : c < s.size), s[c].size = w * h)
+    (hrng : ∀ c (hc : c < s.size) i (hi : i < s[c].size), 0 ≤ s[c][i] ∧ s[c][i] < Go.shl 1 P) :
+    ∃ bits values t scan,
+      Opt.buildOptimal (catFreq (emittedCats sv1 P predictor w h nc s)) = .ok (bits, values) ∧
+      Table.build (bits.map Int.toNat) values.toArray = .ok t ∧
+      encodeScan sv1 P predictor w h nc (buildHuffmanCodes (bits.map Int.toNat) values.toArray) s = .ok scan ∧
+      StuffOk scan = true ∧ decodeScan sv1 P predictor w h nc t scan = .ok s :=
+  lossless_scan_roundtrip_optimal' sv1 P predictor w h nc s hP hsz hrng
+
+example : let s : Array (Array Int) := #[#[0, 32767, 32767, 0]]
+    s.size = 1 ∧ (∀ c (hc : c < s.size), s[c].size = 2 * 2) ∧
+    (∀ c (hc : c < s.size) i (hi : i < s[c].size), 0 ≤ s[c][i] ∧ s[c][i] < Go.shl 1 15) := by decide
 
 end JLL
